@@ -394,13 +394,21 @@ func c13RandomSpace(rng *kit.Rand) []c13R {
 	}
 	k := rng.Range(1, 4)
 	cuts := []int{0, 256}
+	many := rng.Chance(1, 10)
+	if many {
+		// around and above a hundred ranges (the largest block a CMap file may have)
+		k = kit.Pick(rng, []int{99, 100, 101, 102, 150, 201, 256})
+		for _, p := range rng.Perm(255)[:k-1] {
+			cuts = append(cuts, p+1)
+		}
+	}
 	for len(cuts) < k+1 {
 		cuts = append(cuts, rng.Range(1, 255))
 	}
 	sort.Ints(cuts)
 	var rs []c13R
 	for i := 0; i+1 < len(cuts); i++ {
-		if cuts[i] == cuts[i+1] || (len(rs) > 0 && rng.Chance(1, 5)) {
+		if cuts[i] == cuts[i+1] || (len(rs) > 0 && !many && rng.Chance(1, 5)) {
 			continue
 		}
 		r := c13R{n: kit.Pick(rng, []int{1, 2, 2, 2, 3, 4})}
